@@ -492,6 +492,7 @@ type protoDom struct {
 	globals map[string]func(st *sState) sVal
 	notes   []string
 	gLocals      int
+	tpkCalls     int
 	stream       bool // stream domain (package sm3): mutable fields, struct copies, loop acceleration
 	loopVars     int
 	structPoints bool // decoder mode: SM2Point values are ordinary structs of three elements
